@@ -33,6 +33,24 @@ def generate(rng, tier):
                 if d["X"] is not None and "Offset" in d["X"]:
                     d["X"]["Offset"] = rng.choice([0.0, 0.01])
             ds.append(SL.finish_dataset(d, cfg["mat"]))
+        if i % 7 == 5:
+            # raw abscissae a hair off the 0.01 grid and a per-dataset window edge exactly on the grid value of one of them; no Q offsets
+            for d in ds:
+                d["x"] = sorted(round(v, 2) + rng.choice([-0.003, 0.002, 0.004, 3e-17]) for v in d["x"])
+                d["style"] = "jitter"
+                d["X"] = None
+                j = rng.randrange(len(d["x"]))
+                if rng.random() < 0.5:
+                    d["Qmax"], d["Qmin"] = round(d["x"][j], 2), None
+                else:
+                    d["Qmin"], d["Qmax"] = round(d["x"][j], 2), None
+                SL.finish_dataset(d, cfg["mat"])
+        if i % 7 == 3 and len(ds) >= 1:
+            # the same bank contributed twice (bit-identical points) next to a different one: the mean counts every contribution
+            twin = dict(ds[0])
+            other = dict(ds[0], s_true=[v + 0.25 for v in ds[0]["s_true"]])
+            ds = ds + [twin, SL.finish_dataset(other, cfg["mat"])]
+            k = len(ds)
         cases.append({"cfg": cfg, "datasets": ds, "tier": tier,
                       "desc": {"n_datasets": k, "any_xoffset": any(d["X"] is not None for d in ds),
                                "global_window": cfg["Qmin"] is not None or cfg["Qmax"] is not None}})
@@ -112,6 +130,22 @@ def oracle(pystog, case, res):
         if qq > 0 and not (ys.min() - 1e-9 <= v <= ys.max() + 1e-9):
             return "merged value at Q=%r lies outside [min, max] of its contributions" % float(qq)
     ds = case["datasets"]
+    # end to end, from the inputs as given (no Q offsets: where the statement leaves no rounding choice): the grid is the set of
+    # 0.01-resolution Q values of the points inside their windows and the value is the mean of their S(Q)
+    if all((d["X"] or {}).get("Offset", 0.0) == 0.0 for d in ds):
+        ex, es = [], []
+        for d in ds:
+            x_, _, _, s_, _ = SL.expected_rows(case["cfg"], d)
+            ex += np.round(x_, 2).tolist()
+            es += np.asarray(s_, float).tolist()
+        ex, es = np.array(ex), np.array(es)
+        want_keys = sorted(set(ex.tolist()))
+        if want_keys != q.tolist():
+            return "merged grid is not the set of 0.01-resolution Q values of the input points inside their windows (differs at %r)" % (sorted(set(want_keys) ^ set(q.tolist()))[:3],)
+        for qq, v in zip(q, sq):
+            ys = es[ex == qq]
+            if qq > 0 and np.isfinite(ys).all() and abs(v - ys.mean()) > 1e-9 * (1 + np.abs(ys).max() + np.abs(ys).max() / qq):
+                return "merged value %r at Q=%r is not the mean %r of the S(Q) of the %d input points there" % (float(v), float(qq), float(ys.mean()), len(ys))
     orders = []
     if len(ds) > 1:
         if case.get("tier") == "thorough" and len(ds) <= 4:
